@@ -10,3 +10,6 @@ import OsyrisProofs.C04
 #print axioms Osyris.C04.C04_preselect_sound
 #print axioms Osyris.C04.C04_box_sound
 #print axioms Osyris.C04.key_injective_current
+#print axioms Osyris.C04.axisBox_sound
+#print axioms Osyris.C04.convex_of_interval_preds
+#print axioms Osyris.C04.C04_axis_sound
